@@ -1,3 +1,21 @@
-import NxModel.Bytes
-/-! driver stub for C12 (replaced when the property's model lands) -/
-def main : IO Unit := IO.println "stub C12"
+import NxModel.Nex.SchemaInventory
+import NxModel.DriverUtil
+/-! driver for C12: `inv <protos,> <modules,> <pages,>` -> `ok <0|1> | <protos without module> | <modules without proto> | <protos without page> | <pages without proto>`
+    (comma separated Nat codes, `-` = empty) -/
+open Nx Nx.Schema.Inv
+
+def pList (s : String) : Option (List Nat) :=
+  if s == "-" then some [] else (s.splitOn ",").mapM (·.toNat?)
+
+def sList (l : List Nat) : String := if l.isEmpty then "-" else ",".intercalate (l.map toString)
+
+def step (line : String) : String :=
+  match words line with
+  | ["inv", p, m, d] =>
+    match pList p, pList m, pList d with
+    | some p, some m, some d =>
+      s!"ok {if inventoryOK p m d then 1 else 0} | {sList (missing p m)} | {sList (missing m p)} | {sList (missing p d)} | {sList (missing d p)}"
+    | _, _, _ => "bad-op"
+  | _ => "bad-op"
+
+def main : IO Unit := runLines step
